@@ -383,6 +383,10 @@ func (p *c01) Generate(r *rand.Rand, t string) []*Case {
 		if i%3 == 1 && c.Stream != "generated-pkgname" {
 			c01ReuseSlices(c)
 		}
+		// the building style "parts attached through Do callbacks" (c01_do.go) for another third
+		if i%3 == 2 && c.Stream != "generated-pkgname" && c.Meta != nil && c.Meta["world"] == nil {
+			c01DoCallbacks(c, int64(i), false)
+		}
 	}
 	return out
 }
@@ -406,6 +410,7 @@ func (p *c01) Regressions() []*Case {
 		c.Name = s[0]
 		out = append(out, c)
 	}
+	out = append(out, p.doRegressions()...)
 	return out
 }
 
